@@ -22,6 +22,7 @@ or as a whole argument); comparison operators of the value types used are the us
 outside this repertoire simply does not canonicalise to the same tree: the gate stays closed and nothing is assumed."""
 import ast
 import copy
+import re as _re
 
 
 PURE_FUNCS = {'len', 'int', 'float', 'str', 'bytes', 'bool', 'min', 'max', 'abs', 'isinstance', 'tuple', 'repr', 'ord', 'chr', 'divmod',
@@ -136,6 +137,10 @@ def may_raise(e):
             return True
         if isinstance(n, ast.BinOp) and isinstance(n.op, (ast.Div, ast.FloorDiv, ast.Mod)):
             return True
+        if isinstance(n, (ast.BinOp, ast.UnaryOp, ast.Compare)) and any(isinstance(x, ast.Constant) and (x.value is None or isinstance(x.value, (str, bytes)))
+                                                                         for x in ([n.left, n.right] if isinstance(n, ast.BinOp) else [n.operand] if isinstance(n, ast.UnaryOp) and not isinstance(n.op, ast.Not)
+                                                                                   else ([n.left] + n.comparators) if isinstance(n, ast.Compare) and any(isinstance(o, (ast.Lt, ast.LtE, ast.Gt, ast.GtE)) for o in n.ops) else [])):
+            return True         # None + 4, 'a' < x: arithmetic / ordering with a literal that is not a number
         if isinstance(n, ast.BinOp) and isinstance(n.op, (ast.LShift, ast.RShift, ast.Pow)) \
                 and not (isinstance(n.right, ast.Constant) and type(n.right.value) is int and n.right.value >= 0):
             return True         # a negative shift count / 0 ** -1
@@ -203,7 +208,6 @@ def _stdlib_receiver(v):
         return True
     if c is None:
         return False
-    import re as _re
     return c[:2] == ('os', 'path') or c[0] in ('struct', 're') or bool(_re.fullmatch(r'_*RE_[A-Z0-9_]+', c[-1]))
 
 
@@ -1211,7 +1215,6 @@ class _ExprRewrite(ast.NodeTransformer):
             node.right = ast.copy_location(ast.Tuple(elts=[node.right], ctx=ast.Load()), node.right)
         if isinstance(node.op, ast.Mod) and isinstance(node.left, ast.Constant) and isinstance(node.left.value, str) and isinstance(node.right, ast.Tuple) \
                 and not any(isinstance(e, ast.Starred) for e in node.right.elts):
-            import re as _re
             parts = _re.split(r'(%[srd%])', node.left.value)
             if '%' not in ''.join(p for p in parts if not _re.fullmatch(r'%[srd%]', p)) and sum(1 for p in parts if p in ('%s', '%r', '%d')) == len(node.right.elts):
                 vals, k = [], 0
@@ -1606,6 +1609,10 @@ def fold_flag_reads(func):
     return changed
 
 
+def _any_closure(func):
+    return any(n is not func and isinstance(n, (ast.FunctionDef, ast.AsyncFunctionDef, ast.Lambda, ast.GeneratorExp)) for n in ast.walk(func))
+
+
 def assignments_to_ifexp(func):
     """`if c: t = A else: t = B`  and  `t = B; if c: t = A`  (t a local name, B free of side effects) become
     `t = A if c else B`; `a, b = x, y` (no target read on the right) becomes `a = x; b = y`; `a = b = v` (v a constant)
@@ -1632,7 +1639,8 @@ def assignments_to_ifexp(func):
                 tc = {chain(t) for t in st.targets[0].elts}
                 attr_ok = (all(isinstance(t, ast.Name) for t in st.targets[0].elts) and (id(st) not in in_try or not any(may_raise(v) or not is_pure(v) for v in st.value.elts))) or (
                     all(is_pure(v) and not may_raise(v) for v in st.value.elts) and not any(_prefix(r, c) for v in st.value.elts for r in read_chains(v) for c in tc))
-                if attr_ok and not any(isinstance(n, ast.Name) and n.id in tn for v in st.value.elts for n in ast.walk(v)) and not any(isinstance(v, ast.Starred) for v in st.value.elts):
+                if attr_ok and not any(isinstance(n, ast.Name) and n.id in tn for v in st.value.elts for n in ast.walk(v)) and not any(isinstance(v, ast.Starred) for v in st.value.elts) \
+                        and not any(_has_nested_scope_use(func, x_) for x_ in tn) and (all(is_pure(v) for v in st.value.elts) or len(tn) == 0 or not LAMBDA_WRITES[0] and not _any_closure(func)):
                     new = [ast.Assign(targets=[t], value=v) for t, v in zip(st.targets[0].elts, st.value.elts)]
                     for n in new:
                         ast.copy_location(n, st)
@@ -1673,6 +1681,7 @@ def assignments_to_ifexp(func):
                 if ta is not None and not st.orelse and i > 0:
                     prev = block[i - 1]
                     if isinstance(prev, ast.Assign) and len(prev.targets) == 1 and isinstance(prev.targets[0], ast.Name) and prev.targets[0].id == ta and is_pure(prev.value) \
+                            and not _has_nested_scope_use(func, ta) \
                             and cannot_fail(prev.value) and (is_pure(st.test) and not may_raise(st.test) and is_pure(va) and not may_raise(va) or id(st) not in in_try) \
                             and not any(isinstance(n, ast.Name) and n.id == ta for n in ast.walk(st.test)) and not any(isinstance(n, ast.Name) and n.id == ta for n in ast.walk(va)) \
                             and not interferes(ast.Expr(value=st.test), read_chains(prev.value)):
@@ -1723,11 +1732,15 @@ def enumerate_to_index(func):
     return changed
 
 
+_NESTED_NAMES = [frozenset()]
+
+
 def sink_constant_inits(func):
     """`x = <literal or empty container>` is moved down to just before the first later statement of its block that mentions x:
     the order in which independent counters, flags and accumulators are initialised is immaterial"""
     changed = False
     params = set(_params(func))
+    _NESTED_NAMES[0] = frozenset(x.id for n in ast.walk(func) if n is not func and isinstance(n, _NESTED + (ast.GeneratorExp,)) for x in ast.walk(n) if isinstance(x, ast.Name))
     # a name read by an exception handler / finally clause may be needed before its first ordinary use
     in_handlers = set()
     for t in ast.walk(func):
@@ -1784,7 +1797,7 @@ def _is_init(st, params, in_handlers):
     v = st.value
     empty = (isinstance(v, (ast.List, ast.Set)) and not v.elts or isinstance(v, ast.Dict) and not v.keys
              or isinstance(v, ast.Call) and isinstance(v.func, ast.Name) and v.func.id in ('set', 'dict', 'list') and not v.args and not v.keywords)
-    return (isinstance(v, ast.Constant) or bool(empty)) and st.targets[0].id not in params and st.targets[0].id not in in_handlers
+    return (isinstance(v, ast.Constant) or bool(empty)) and st.targets[0].id not in params and st.targets[0].id not in in_handlers and not _NESTED_NAMES[0] & {st.targets[0].id}
 
 
 def _in_try(func):
@@ -1856,7 +1869,8 @@ def sink_into_branches(func):
                         and len(_name_nodes(ast.Module(body=nx.body, type_ignores=[]), t)) == 1 and len(_name_nodes(ast.Module(body=nx.orelse, type_ignores=[]), t)) == 1 \
                         and len(_name_nodes(nx.body[0], t)) == 1 and len(_name_nodes(nx.orelse[0], t)) == 1 \
                         and all(_stmt_exprs(b0) is not None and not _impure_before(b0, _name_nodes(b0, t)[0], st.value) for b0 in (nx.body[0], nx.orelse[0])) \
-                        and not any(_name_nodes(s_, t) for s_ in block[i + 2:]):
+                        and not any(_name_nodes(s_, t) for s_ in block[i + 2:]) \
+                        and len(loads.get(t, [])) == 2:
                     # (only where it lets the value be written in place of the name: used once, first thing, in each branch)
                     a, b = copy.deepcopy(st), copy.deepcopy(st)
                     nx.body.insert(0, a)
@@ -1943,7 +1957,8 @@ def _reorderable(st):
     value to a name / attribute chain, or an in-place container method on an attribute chain with side-effect-free arguments;
     None for anything else (calls of unknown functions keep their order)"""
     if isinstance(st, ast.Assign) and len(st.targets) == 1 and isinstance(st.targets[0], (ast.Name, ast.Attribute)) and chain(st.targets[0]) and is_pure(st.value) \
-            and not _allocates_shared(st.value) and not may_raise(st.value):
+            and not _allocates_shared(st.value) and not may_raise(st.value) and not (isinstance(st.targets[0], ast.Attribute) and may_raise(st.targets[0].value)) \
+            and not (isinstance(st.targets[0], ast.Attribute) and (ATTR_ERRORS_CAUGHT[0] or chain(st.targets[0])[0] in NONE_TESTED[0])):
         base = st.targets[0].value if isinstance(st.targets[0], ast.Attribute) else None
         # (the object whose attribute is set is only referred to: a bare name there reads nothing another statement writes)
         return read_chains(st.value) | (read_chains(base) if base is not None and not isinstance(base, ast.Name) else set()), {chain(st.targets[0])}
@@ -1965,7 +1980,6 @@ def _allocates_shared(v):
 def sort_independent_runs(func):
     """maximal runs of neighbouring statements that are pairwise independent (none writes what another reads or writes) are put in
     the order of their text with local names blanked: the order in which independent attributes are set is immaterial"""
-    import re as _re
     changed = False
     for owner, block in _all_blocks(func):
         i = 0
@@ -2934,7 +2948,7 @@ def cx(e):
                 leaves.append(x)
         flat(e)
         if not any(isinstance(x, (ast.List, ast.Tuple, ast.JoinedStr)) or isinstance(x, ast.Constant) and isinstance(x.value, (str, bytes)) for x in leaves) \
-                and all(is_pure(x) for x in leaves):
+                and all(is_pure(x) for x in leaves) and sum(1 for x in leaves if may_raise(x)) <= 1:
             return '(Mult ' + ' '.join(sorted(cx(x) for x in leaves)) + ')'
     if isinstance(e, ast.BinOp):
         a, b = cx(e.left), cx(e.right)
@@ -3127,7 +3141,7 @@ def _atoms(cond, then, other, budget):
         if isinstance(cond.ops[0], ast.GtE):
             c2 = ast.Compare(left=cond.left, ops=[ast.Lt()], comparators=cond.comparators)
             return _atoms(c2, other, then, budget)
-        if isinstance(cond.ops[0], ast.LtE) and is_pure(cond.left) and is_pure(cond.comparators[0]):
+        if isinstance(cond.ops[0], ast.LtE) and is_pure(cond.left) and is_pure(cond.comparators[0]) and not (may_raise(cond.left) and may_raise(cond.comparators[0])):
             c2 = ast.Compare(left=cond.comparators[0], ops=[ast.Lt()], comparators=[cond.left])
             return _atoms(c2, other, then, budget)
     if isinstance(cond, ast.Call) and isinstance(cond.func, ast.Name) and cond.func.id == 'isinstance' and len(cond.args) == 2 and not cond.keywords \
@@ -3195,8 +3209,8 @@ def _assume_local(tree, mark, val):
     text = repr(tree)
     if neg not in text or mark not in _SIMPLE_STORES[0]:
         return tree
-    if mark not in _BOOL_MARKS[0] and mark in text.replace(neg, '').replace(f"'{mark}'", ''):
-        return tree         # a list / object tested for truth and used otherwise too may be changed in place in between
+    if mark not in _BOOL_MARKS[0]:
+        return tree         # a list / object tested for truth may be changed in place in between (also through another name)
     if f"('{mark}'" in text or f"'aug', " in text and f"'{mark}'" in text:
         return tree
 
@@ -3212,7 +3226,6 @@ def _assume_local(tree, mark, val):
 def _assume(tree, c, val):
     """the tree with the side-effect-free test c known to be val, as far as only side-effect-free tests and plain assignments that
     cannot change what c reads stand before it"""
-    import re as _re
     for i, node in enumerate(tree):
         if node[0] == 'if' and node[1] in _PURE_ATOMS and i == len(tree) - 1:
             _, a, t, e = node
@@ -3222,7 +3235,8 @@ def _assume(tree, c, val):
             if t2 is not t or e2 is not e:
                 return tree[:i] + (t2 if t2 == e2 else (('if', a, t2, e2),))
             return tree
-        if node[0] == 'assign' and all(_re.fullmatch(r'[\w' + MARK + r'.]+', t_) and t_ not in c and not _aliased_in(t_, c) and not _through_property(t_, c) for t_ in node[1]) \
+        if node[0] == 'assign' and all(_re.fullmatch(r'[\w' + MARK + r'.]+', t_) and t_ not in c and not _aliased_in(t_, c) and not _through_property(t_, c) and not _touches_test(t_, c)
+                                       for t_ in node[1]) \
                 and _effect_free_text(node[2]):
             # e.g. self.x = self.y between two tests of self.z; the test itself written as the value is its known truth value
             # (comparisons give truth values, DESIGN 8.9)
@@ -3234,12 +3248,23 @@ def _assume(tree, c, val):
     return tree
 
 
+def _touches_test(target, c):
+    """the target is a field of an object that the test mentions as a whole (`win.end = ..` against `not win`, `len(self.buf)`,
+    `rec in self.seen`, `a == b`): the object may answer those through the field"""
+    parts = target.split('.')
+    lo = 2 if parts[0].strip(MARK) == 'self' else 1
+    for k in range(lo, len(parts)):
+        pre = '.'.join(parts[:k])
+        if _re.search(r'(?<![\w.' + MARK + r'])' + _re.escape(pre) + r'(?![\w' + MARK + r'])', c):
+            return True
+    return False
+
+
 def _through_property(target, c):
     """the target is (set through) a property, or the test reads a property of the same object: the assignment may change what
     the test sees although the texts do not overlap"""
     if '.' not in target:
         return False
-    import re as _re
     if target.split('.')[-1] in ALL_PROPS[0] or '*' in ALL_PROPS[0] and target.startswith('self.'):
         return True
     root = target.split('.')[0]
@@ -3254,7 +3279,8 @@ def _aliased_in(target, c):
             a = (a[0].strip(MARK),) + tuple(a[1:])
             b = (b[0].strip(MARK),) + tuple(b[1:])
             # the target goes through a (a local or a chain) and the test mentions b, another name for the same object
-            if _prefix(tparts, a) and ('.'.join(b) in c or '.'.join([MARK + b[0] + MARK] + list(b[1:])) in c):
+            # (a proper prefix: the object that holds the slot; the slot itself being bound to b's object is no write to b)
+            if len(a) < len(tparts) and tparts[:len(a)] == a and ('.'.join(b) in c or '.'.join([MARK + b[0] + MARK] + list(b[1:])) in c):
                 return True
     return False
 
@@ -3266,7 +3292,6 @@ _PURE_HEADS = {'Eq', 'NotEq', 'Lt', 'LtE', 'Gt', 'GtE', 'Is', 'IsNot', 'In', 'No
 def _effect_free_text(v):
     """the canonical text of a value built from names, attribute reads, literals and operators only: no call, no yield / await
     (control leaves the function there and anything may change), no walrus, no display that allocates"""
-    import re as _re
     if _re.search(r'[\w\]\)\'"]\(', v):           # something applied to arguments
         return False
     return all(h in _PURE_HEADS for h in _re.findall(r'\((\w+)', v)) and not _re.search(r'\(\s*[^\w(]', v.replace('(#', '(X'))
@@ -3339,7 +3364,6 @@ def seq(stmts, k, budget):
         rest = seq(stmts[1:], k, budget)
         items = tuple((cx(i.context_expr), cx(i.optional_vars)) for i in st.items)
         _wtag = 'with' if isinstance(st, ast.With) else 'asyncwith'
-        import re as _re
         # (a plain local or a literal: reading it before or after __exit__ is the same; an attribute may be changed by __exit__)
         simple = len(rest) == 1 and rest[0][0] == 'return' and bool(_re.fullmatch(MARK + r'\w+' + MARK + r'|#(None|True|False|-?\d+)', rest[0][1]))
         body = seq(st.body, rest if simple else (), budget)
@@ -3379,8 +3403,10 @@ def seq(stmts, k, budget):
         def overwrites(br):
             # (an override that can fail would leave the default in place in one spelling and the old value in the other)
             return bool(br) and br[0][0] == 'assign' and br[0][1] == (tgt,) and root not in br[0][2] and _effect_free_text(br[0][2]) and '[' not in br[0][2] \
-                and not any(h in br[0][2] for h in ('(Div ', '(FloorDiv ', '(Mod '))
-        if tgt not in c and c not in _RAISING_ATOMS and not _through_property(tgt, c) and not _aliased_in(tgt, c) and overwrites(then) != overwrites(other):
+                and not any(h in br[0][2] for h in ('(Div ', '(FloorDiv ', '(Mod ', '(LShift ', '(RShift ', '(Pow ')) and not _aliased_in(tgt, br[0][2]) \
+                and not _re.search(MARK + r'\w+' + MARK + r'\.', br[0][2])
+        if tgt not in c and c not in _RAISING_ATOMS and not _through_property(tgt, c) and not _aliased_in(tgt, c) and not _touches_test(tgt, c) \
+                and overwrites(then) != overwrites(other):
             node = ('assign', (tgt,), cx(st.value))
             budget[0] -= 1
             return (('if', c, then, (node,) + other),) if overwrites(then) else (('if', c, (node,) + then, other),)
@@ -3396,7 +3422,6 @@ def seq(stmts, k, budget):
 def _bubble(tree):
     """neighbouring assignments of literals to different plain attribute chains / names commute: the one with the smaller target
     text goes first (the head of the tree only: it is applied each time a statement is put in front)"""
-    import re as _re
 
     def simple(n):
         return n[0] == 'assign' and len(n[1]) == 1 and _re.fullmatch(r'[\w.]+', n[1][0]) and _re.fullmatch(r'#(None|True|False|-?\d+(\.\d+)?)', n[2])
@@ -3404,7 +3429,10 @@ def _bubble(tree):
     i = 0
     while i + 1 < len(out) and simple(out[i]) and simple(out[i + 1]):
         a, b = out[i][1][0], out[i + 1][1][0]
-        if b < a and not a.startswith(b) and not b.startswith(a) and not _aliased_in(a, b) and not _aliased_in(b, a) \
+        def safe(t_):
+            p_ = t_.split('.')
+            return len(p_) == 1 or p_[0] == 'self' and len(p_) == 2 and not ATTR_ERRORS_CAUGHT[0]
+        if b < a and safe(a) and safe(b) and not a.startswith(b) and not b.startswith(a) and not _aliased_in(a, b) and not _aliased_in(b, a) \
                 and not any(x.split('.')[-1] in ALL_PROPS[0] or '*' in ALL_PROPS[0] and x.startswith('self.') for x in (a, b)):
             out[i], out[i + 1] = out[i + 1], out[i]
             i += 1
@@ -3471,7 +3499,7 @@ def tree_safe_locals(func):
                 if isinstance(sub, list) and sub and isinstance(sub[0], ast.stmt):
                     # the canonical tree of `what follows` ends at the end of: a loop body / loop else, a with body, a try body;
                     # every part of a try statement that has a finally clause
-                    cut = isinstance(st, (ast.For, ast.AsyncFor, ast.While)) or isinstance(st, (ast.With, ast.AsyncWith)) or isinstance(st, ast.Try) and (field == 'body' or fin)
+                    cut = isinstance(st, (ast.For, ast.AsyncFor, ast.While)) or isinstance(st, (ast.With, ast.AsyncWith)) or isinstance(st, ast.Try)
                     if isinstance(st, ast.Try) and field == 'body' and not fin and isinstance(sub[-1], (ast.Return, ast.Continue, ast.Break)):
                         # seq() moves a final return / continue / break of a try body to the else-part: it is not in the body's tree
                         walk(sub[:-1], sub[:-1] or reg)
@@ -3479,7 +3507,7 @@ def tree_safe_locals(func):
                     else:
                         walk(sub, sub if cut else reg)
             for h in getattr(st, 'handlers', []):
-                walk(h.body, h.body if fin else reg)
+                walk(h.body, h.body)        # (the handlers' continuation is cut off when what follows depends on being outside them)
     walk(func.body, None)
     assigns = {}
     for n in ast.walk(func):
